@@ -80,7 +80,16 @@ class Harness:
 
     def fresh(self):
         w = World()
-        if self.quiet:       # a model built with the caller's own logger, set above INFO
+        if self.style == 'gated':
+            # a model class that refines is_running() with a condition of its own that can flip back and forth (say,
+            # "somebody is still alive"): completion is permanent all the same
+            class Gated(Core.Model):
+                gate = True
+
+                def is_running(self):
+                    return self.gate and super().is_running()
+            w.model = m = new_model(seed=1, cls=Gated)
+        elif self.quiet:       # a model built with the caller's own logger, set above INFO
             lg = logging.getLogger('c06-quiet')
             lg.setLevel(logging.ERROR)
             w.model = m = Core.Model(seed=1, logger=lg)
@@ -99,7 +108,11 @@ class Harness:
             def execute(self):
                 log.append(self.id)
                 if self.model.systems.timestep == tc:
+                    if style == 'spawning' and 'new' not in self.model.systems.systems:
+                        self.model.systems.add_system(w.objs['new'])      # a last-minute registration
                     self.model.complete()
+                    if style == 'unimplemented':
+                        super().execute()              # the base class's execute(): NotImplementedError
                     if style == 'self_removing':
                         self.clean_up()
                     elif style == 'raises':
@@ -149,6 +162,8 @@ class Harness:
         w.m2 = new_model(seed=2)
         w.m2.systems.add_system(w.objs['rm'])
         w.running = True
+        w.completed = False
+        w.gate = True
         w.t = 0
         w.last = None
         return w
@@ -160,6 +175,8 @@ class Harness:
 
     def ops(self, w):
         ops = [['complete']]
+        if self.style == 'gated':
+            ops.append(['gate', 0 if w.gate else 1])
         if not w.running or w.t < self.horizon:      # while running the clock is bounded by the horizon
             ops += [['execute', 1], ['execute', 2], ['execute', 3], ['xs'], ['xs_throw'], ['xs_old']]
         names = {k for _, _, k in w.reg}
@@ -181,6 +198,9 @@ class Harness:
             if key in w.completers and w.t == w.completers[key]:
                 if self.style == 'self_removing':
                     w.reg = [r for r in w.reg if r[2] != key]
+                if self.style == 'spawning' and 'new' not in {r[2] for r in w.reg}:
+                    w.reg.append((w.objs['new'].priority, w.seq, 'new'))
+                    w.seq += 1
                 return out, True
         return out, False
 
@@ -196,12 +216,22 @@ class Harness:
             w.reg = [r for r in w.reg if r[2] != op[1]]
             self._status(w, op)
             return
+        if kind == 'gate':
+            n0 = len(w.log)
+            m.gate = bool(op[1])
+            w.gate = bool(op[1])
+            w.running = w.gate and not w.completed
+            if len(w.log) != n0:
+                raise Violation('flipping the model\'s own running condition made a system run')
+            self._status(w, op)
+            return
         if kind == 'complete':
             n0 = len(w.log)
             recs = len(w.objs['ac'].records)
             held, text = list(w.objs['fc'].records), _read(w.path)
             m.complete()
             w.running = False
+            w.completed = True
             if len(w.log) != n0 or len(w.objs['ac'].records) != recs:
                 raise Violation('marking the model complete made a system run / a collector collect',
                                 expected=[], observed=w.log[n0:])
@@ -271,6 +301,7 @@ class Harness:
             exp += entries
             if completes:
                 w.running = False
+                w.completed = True
                 completed_at = w.t
             else:
                 w.t += 1
@@ -283,7 +314,7 @@ class Harness:
                 m.systems.executeSystems()
             else:
                 m.systems.execute_systems(throw_error=True)   # behaves as a step while running
-        except Halt:
+        except (Halt, NotImplementedError):
             if completed_at is None:
                 raise Violation(f'{op}: the completer raised although it was not its completing timestep')
         got = w.log[n0:]
@@ -316,7 +347,7 @@ class Harness:
 
     def refstate(self, w):
         return (tuple(k for _, _, k in w.reg), tuple(k for _, _, k in sorted(w.reg, key=lambda r: (-r[0], r[1]))),
-                w.running, w.t)
+                w.running, w.t, w.completed, w.gate)
 
     def outcome(self, w):
         return w.last
@@ -328,7 +359,7 @@ def configs(tier):
             yield (pos, tc, 4 if tier == 'quick' else 6, False)
     for pos in POS:
         yield (pos, 1, 4 if tier == 'quick' else 6, False, True)       # caller-supplied quiet logger
-    for style in ('self_removing', 'raises', 'finite_ends'):
+    for style in ('self_removing', 'raises', 'finite_ends', 'gated', 'spawning', 'unimplemented'):
         for pos in ('first', 'mid', 'last'):
             for tc in ((1,) if tier == 'quick' else TCS):
                 yield (pos, tc, 4 if tier == 'quick' else 6, False, False, style)
